@@ -73,6 +73,14 @@ fw!(firstwins_memo_offbyone_then_unsafe_r1, 20, 1.0, [OffByOneMutator, MemoIndex
     let r = g.mutate_memo_index(v, s);
     assert!(r == v.saturating_add(1) || r == v.saturating_sub(1), "rate 1.0: the first applicable mutator (off-by-one) must mutate the memo index");
 });
+fw!(firstwins_memo_unsafe_first_r1, 20, 1.0, [MemoIndexMutator::new(true), OffByOneMutator], |g, s| {
+    // a mutator created in unsafe mode is registered on a generator whose own flag is off: it is still the first
+    // applicable mutator for a memo index (the generator's flag only decides whether the result is validated)
+    let v: usize = kani::any();
+    kani::assume(v >= 2000);
+    let r = g.mutate_memo_index(v, s);
+    assert!(r < 1000, "rate 1.0: the first applicable mutator (memo-index, unsafe variant) must mutate the memo index");
+});
 fw!(firstwins_memo_r0, 20, 0.0, [MemoIndexMutator::new(true), OffByOneMutator], |g, s| {
     let v: usize = kani::any();
     let r = g.mutate_memo_index(v, s);
